@@ -341,6 +341,14 @@ func strip(v ssa.Value) ssa.Value {
 				}
 			}
 			return v
+		case *ssa.Alloc:
+			// the address of a local that is written exactly once stands for the stored value
+			// (spilled parameters, value receivers of pointer-receiver methods)
+			if s := singleStore(x); s != nil {
+				v = s
+				continue
+			}
+			return v
 		default:
 			return v
 		}
@@ -348,8 +356,9 @@ func strip(v ssa.Value) ssa.Value {
 	return v
 }
 
-// singleStore: if the alloc is written by exactly one Store (and never escapes through a call
-// other than as receiver of loads), return the stored value.
+// singleStore: if the alloc is written by exactly one Store and its address does not escape to a
+// callee that could write through it (non-receiver argument, or an Unmarshal-like method), return
+// the stored value.
 func singleStore(a *ssa.Alloc) ssa.Value {
 	var val ssa.Value
 	n := 0
@@ -359,6 +368,27 @@ func singleStore(a *ssa.Alloc) ssa.Value {
 			if x.Addr == a {
 				n++
 				val = x.Val
+			} else {
+				return nil // address stored somewhere
+			}
+		case ssa.CallInstruction:
+			for _, arg := range callArgs(x) {
+				if arg == a {
+					return nil
+				}
+			}
+			nm := calleeName(x)
+			if strings.Contains(nm, "Unmarshal") || strings.Contains(nm, ".Reset") {
+				return nil
+			}
+		case *ssa.MakeClosure, *ssa.MakeInterface, *ssa.Phi:
+			return nil
+		case *ssa.FieldAddr:
+			// a later write through a field changes the stored struct
+			for _, rr := range *x.Referrers() {
+				if st, ok := rr.(*ssa.Store); ok && st.Addr == x {
+					return nil
+				}
 			}
 		}
 	}
@@ -400,6 +430,12 @@ func roots(v ssa.Value) []ssa.Value {
 			}
 			return
 		}
+		if a, ok := v.(*ssa.Alloc); ok {
+			if s := singleStore(a); s != nil {
+				walk(s, d+1)
+				return
+			}
+		}
 		out = append(out, v)
 	}
 	walk(v, 0)
@@ -421,6 +457,10 @@ func vkeyD(v ssa.Value, d int) string {
 		return v.Name()
 	}
 	switch x := v.(type) {
+	case *ssa.Alloc:
+		if s := singleStore(x); s != nil {
+			return vkeyD(s, d+1)
+		}
 	case *ssa.Parameter:
 		return "param:" + x.Name()
 	case *ssa.FreeVar:
@@ -517,8 +557,12 @@ func isErrorType(t types.Type) bool {
 	return ok && n.Obj().Pkg() == nil && n.Obj().Name() == "error"
 }
 
-// fieldLoadOf: v is a load of field `name` of some struct value; returns the base value.
+// fieldLoadOf peels one field selection: v is a load of field `name` (x.f, p.f through a pointer,
+// or the address &x.f used as the base of a nested selection); returns the base value/address.
 func fieldLoadOf(v ssa.Value) (base ssa.Value, name string, ok bool) {
+	if fa, isAddr := v.(*ssa.FieldAddr); isAddr {
+		return fa.X, fieldName(fa.X.Type(), fa.Field), true
+	}
 	v = strip(v)
 	switch x := v.(type) {
 	case *ssa.UnOp:
@@ -528,6 +572,8 @@ func fieldLoadOf(v ssa.Value) (base ssa.Value, name string, ok bool) {
 			}
 		}
 	case *ssa.Field:
+		return x.X, fieldName(x.X.Type(), x.Field), true
+	case *ssa.FieldAddr:
 		return x.X, fieldName(x.X.Type(), x.Field), true
 	}
 	return nil, "", false
@@ -764,6 +810,10 @@ func NeverAfterHolds(site ssa.Instruction, atom AtomFn) (ok bool, n int) {
 		b := g.If.Block()
 		tgt := b.Succs[g.HoldIdx]
 		r := NewReach(fn)
+		// a path that re-evaluates the test (next loop iteration) starts afresh
+		for _, g2 := range gs {
+			r.CutInstrs[g2.If] = true
+		}
 		if len(tgt.Instrs) == 0 {
 			continue
 		}
